@@ -321,6 +321,16 @@ impl<const SECURE: bool> Dialer<SECURE> {
         let _ = self.tx.send((ezk_end, peer_addr));
         peer_end
     }
+
+    /// like `dial`, but the accepted stream reports `local_addr` as its own end (a listener bound to a
+    /// wildcard / dual-stack address reports a different local address per connection, e.g. `[::ffff:10.0.0.1]:5060`)
+    pub fn dial_on(&self, local_addr: &str, peer_addr: &str) -> PeerConn {
+        let local_addr: SocketAddr = local_addr.parse().unwrap();
+        let peer_addr: SocketAddr = peer_addr.parse().unwrap();
+        let (ezk_end, peer_end) = make_pair::<SECURE>(self.clock, &self.log, local_addr, peer_addr);
+        let _ = self.tx.send((ezk_end, peer_addr));
+        peer_end
+    }
 }
 
 #[async_trait::async_trait]
